@@ -44,10 +44,11 @@ def finding_key(req, obs, detail):
         return "formatter.rs format_literal: single 0x15ae43fd printed with f32 Display digits (7.038531e-26) reads back as 0x15ae43fe"
     # C10.num: the two spelling families of the C numeral grammar that rssl's dispatcher does not read as one literal
     if req.startswith("C10.num"):
-        if re.match(r"FAIL:numeral \.\d\S* is the one literal Float\S* 0 \d+ but was read as Period 0 1;", d):
+        if re.match(r"FAIL:numeral \.\d\S* is the one literal Float\S* (\d+) \d+ but was read as Period \1 \d+;", d):
             return KEY_NO_INTEGER_DIGITS
-        if re.match(r"FAIL:numeral 0X[0-9a-fA-F]+[uUlL]{0,2} (is the one literal Int\S* 0 \d+|does not fit the type its suffix names "
-                    r"\(IntegerLiteralTooLarge at 2 expected\)) but was read as Int:0 0 1;Id:58", d):
+        if re.match(r"FAIL:numeral 0X[0-9a-fA-F]+[uUlL]{0,2} is the one literal Int\S* (\d+) \d+ but was read as Int:0 \1 \d+;Id:58", d) or \
+                re.match(r"FAIL:numeral 0X[0-9a-fA-F]+[uUlL]{0,2} does not fit the type its suffix names \(IntegerLiteralTooLarge at "
+                         r"\d+ expected\) but was read as (.*;)?Int:0 \d+ \d+;Id:58", d):
             return KEY_UPPER_HEX_PREFIX
     if re.match(r"FAIL:panic (\S*/)?formatter/src/formatter\.rs:\d+: invalid msl$", d):
         return "panic formatter/src/formatter.rs fn write_infinity_f64: invalid msl"
